@@ -135,7 +135,7 @@ def run(ctx):
                             c3 = wsdlkit.client(w, faults=faults, retxml=retxml, transport=tr)
                             paths.append(("transport-reply/%d" % code, lambda c3=c3: c3.service.f("x")))
                     # (b) TransportError with / without body
-                    if status is not None:
+                    if True:
                         te = suds.transport.TransportError("err", status, io.BytesIO(data))
                         tr = wsdlkit.RecordingTransport(reply=te)
                         c4 = wsdlkit.client(w, faults=faults, retxml=retxml, transport=tr)
